@@ -170,6 +170,26 @@ def standin_search(pid, root, tier):
     return {'counterexample': None, 'searched': tried}
 
 
+def run_pins(pid, pins, root):
+    """concrete executions on the real code; returns (n_ok, failures[list of verdict dicts])"""
+    ok, bad = 0, []
+    exes = {}
+    for oracle, args in pins:
+        c = crate_for(oracle)
+        if c not in exes:
+            exes[c] = build(root, c)
+        if not exes[c]:
+            bad.append({'oracle': oracle, 'args': args, 'error': 'driver build failed'})
+            continue
+        v = _run(exes[c], ['call', oracle, json.dumps(args)])
+        if v.get('ok') is True:
+            ok += 1
+        else:
+            v['oracle'] = oracle
+            bad.append(v)
+    return ok, bad
+
+
 def replay_known(k, root):
     """True: still reproduces; False: no longer reproduces; None: could not run."""
     exe = build(root, crate_for(k['oracle']))
